@@ -404,6 +404,8 @@ Proof.
     + (* Restart *)
       rewrite gstep_unfold. cbn [step step0 st ok0 fst snd CSInv cpsigned cprevoked opt_cons o_cpsig mem disk].
       split; [reflexivity | eapply CIe_cpf; [exact Hd | exact HC]].
+    + (* a refused setup on a ready channel *)
+      rewrite gstep_unfold. cbn [step step0 st refused fst snd CSInv cpsigned cprevoked opt_cons o_cpsig]. auto.
 Qed.
 
 (** a counterparty signature is only returned by a signing request, and only for a number
@@ -464,6 +466,7 @@ Proof.
     destruct (secret_res warn prof (mem ch) (n0 - 2)) as [[|]|]; cbn; discriminate.
   - pose proof (fr_hrevoke warn prof ch n0 pay_ok Hd) as [_ [_ Hn]]. unfold hrevoke in Hn.
     destruct (tbind _ (ch, refused) _); cbn [snd] in *; congruence.
+  - cbn; discriminate.
   - cbn; discriminate.
   - cbn; discriminate.
 Qed.
